@@ -16,6 +16,7 @@ import (
 // Verifier holds the loaded program and all program-wide tables.
 type Verifier struct {
 	RepoDir        string
+	mapOrderOnly   map[*ssa.Function]bool // functions that joined C16 for a map iteration only
 	Prog           *ssa.Program
 	Pkgs           []*packages.Package
 	SPkgs          map[string]*ssa.Package // by package name ("wire", "main")
@@ -45,7 +46,7 @@ func loadProgram(repo string, specFiles []string) (*Verifier, error) {
 	}
 	prog, spkgs := ssautil.AllPackages(pkgs, ssa.GlobalDebug)
 	prog.Build()
-	v := &Verifier{RepoDir: repo, Prog: prog, Pkgs: pkgs, SPkgs: map[string]*ssa.Package{}, ModPkgs: map[*types.Package]bool{},
+	v := &Verifier{RepoDir: repo, mapOrderOnly: map[*ssa.Function]bool{}, Prog: prog, Pkgs: pkgs, SPkgs: map[string]*ssa.Package{}, ModPkgs: map[*types.Package]bool{},
 		DB: newSpecDB(), U: newUniverse(), Funcs: map[string]*ssa.Function{}, FuncKey: map[*ssa.Function]string{},
 		ModSets: map[*ssa.Function]map[string]bool{}, GlobalsWritten: map[*ssa.Global]bool{}, ImplCache: map[string][]int{},
 		TypesByPkgName: map[string]*types.Package{}}
